@@ -12,6 +12,9 @@ use std::sync::Arc;
 const GAP: Ns = 4000 * SEC;
 
 fn base_cfg(d: &Draw, dir: &std::path::Path) -> ServerCfg {
+    let mut fc = crate::world::FaultCfg::default();
+    crate::scen::light_sched(d, &mut fc);
+    d.w.lock().cfg = fc;
     let mut srv = ServerCfg::new(dir);
     srv.single_port = d.chance("swarm.single_port", 1, 2);
     srv.v6 = d.chance("swarm.ipv6", 1, 8);
